@@ -104,6 +104,21 @@ func c14Grammar(seed int64, gi int) *spec.Grammar {
 	if gi%4 == 3 {
 		return gen.OpTable(r)
 	}
+	if gi%4 == 2 {
+		// grammars whose lookahead computation has strongly connected components with shared sets
+		// (the D12 witness first), then the other curated families
+		fam := []string{
+			"A: ; L: A A | g | A L L f z d A A L e L d | q e z q g g d c c f f; A: L",
+			"S: A x; A: B C; B: A D | b; C: | c; D: | d",
+			"X: A B X | c; A: ; B: ",
+			"S: o1 A c1 | o2 B c2 | o3 C c3 | o4 D c4; A: a B; B: b C; C: c D; D: d A | e",
+		}
+		k := gi / 4
+		if k < len(fam) {
+			return gen.Parse(fam[k])
+		}
+		return cloneGrammar(families[k%len(families)])
+	}
 	if gi%4 == 1 {
 		// grammars with few terminals and several complete items per state: pick, among 40 candidates,
 		// the one with most tie sites (reduce/reduce ties count double)
